@@ -3,9 +3,14 @@ use crate::fw::Ctx;
 pub mod c02;
 pub mod c03;
 pub mod c04;
+pub mod c05;
+pub mod c07;
+pub mod c08;
 pub mod c09;
 pub mod c10;
+pub mod c12;
 pub mod c18;
+pub mod c20;
 
 pub struct Check {
     pub id: &'static str,
@@ -31,6 +36,21 @@ pub fn lookup(id: &str) -> Option<Check> {
             run: c04::run,
         },
         Check {
+            id: "C05",
+            level: "exploration",
+            run: c05::run,
+        },
+        Check {
+            id: "C07",
+            level: "exploration",
+            run: c07::run,
+        },
+        Check {
+            id: "C08",
+            level: "exploration",
+            run: c08::run,
+        },
+        Check {
             id: "C09",
             level: "exploration",
             run: c09::run,
@@ -41,9 +61,19 @@ pub fn lookup(id: &str) -> Option<Check> {
             run: c10::run,
         },
         Check {
+            id: "C12",
+            level: "fault_enumeration",
+            run: c12::run,
+        },
+        Check {
             id: "C18",
             level: "exploration",
             run: c18::run,
+        },
+        Check {
+            id: "C20",
+            level: "exploration",
+            run: c20::run,
         },
     ];
     all.into_iter().find(|c| c.id == id)
